@@ -277,6 +277,11 @@ def edit_signature(root_before_ast, rec):
             if fam == 'del' and isinstance(parent, (ast.Try, getattr(ast, 'TryStar', ast.Try))) and field == 'handlers' \
                     and len(parent.handlers) == 1 and parent.orelse:
                 slot += '@last-handler-with-else'
+            if fam == 'del' and isinstance(tgt, ast.stmt) and path[-1][1] == 0 and isinstance(parent, ast.stmt) \
+                    and tgt.lineno == parent.lineno and len(getattr(parent, field)) > 1 \
+                    and getattr(parent, field)[1].lineno > tgt.end_lineno:
+                # the block body starts on the header line and goes on, after `;` and a backslash continuation, on the next line
+                slot += '@header-line-first-then-continuation'
             what = rec.get('donor_kind') if fam == 'one' else tgt.__class__.__name__
             return fam, slot + tags, what
         slot = f'{tgt.__class__.__name__}.{rec["field"]}'
